@@ -5,13 +5,15 @@ CONSTANTS
   Variant = "real"
   Configs = {"gh"}
   Kinds = {"same"}
-  MaxLen = 12
+  MaxLen = 10
   MaxProbe = 1
   MaxHold = 1
-  MaxSd = 2
+  MaxSd = 1
   GSet = {1}
 CONSTRAINT Bound
+VIEW View
 ACTION_CONSTRAINT InOrder
+ACTION_CONSTRAINT LifeOrder
 INVARIANT TypeOK
 INVARIANT Lifetime
 INVARIANT StatementHolds
